@@ -184,6 +184,24 @@ def colwise_arith(F, mon):
                     if not views_equal(lb, table_view(L)):
                         F.add("operands_unchanged", case, "operand table changed", "unchanged")
                     mon.see(r, "table arithmetic (column kinds)", rule=False)
+                    if rv is None and r.column_names() != ["p", "q"]:
+                        F.add("names", case, r.column_names(), ["p", "q"])
+                # the reflected form: scalar op table = the reflected column operation, names kept
+                for R in scalars:
+                    L = Table({"p": list(v1), "q": list(v2)})
+                    per = [attempt(lambda c=c: fn(R, c)) for c in L.cols()]
+                    st, r, e = attempt(lambda: fn(R, L))
+                    ex += 1
+                    case = {"left": "scalar " + repr(R), "op": opname, "right columns": [k1, k2]}
+                    if not all(p[0] == "ok" and isinstance(p[1], Vector) for p in per):
+                        continue
+                    if st != "ok" or not isinstance(r, Table):
+                        F.add("table_arith", case, "raised " + type(e).__name__ + ": " + str(e)[:80] if st != "ok" else type(r).__name__, [list(p[1]) for p in per])
+                        continue
+                    if not views_equal([list(x) for x in r.cols()], [list(p[1]) for p in per]):
+                        F.add("table_arith", case, [list(x) for x in r.cols()], [list(p[1]) for p in per])
+                    if r.column_names() != ["p", "q"]:
+                        F.add("names", case, r.column_names(), ["p", "q"])
     return ex
 
 
@@ -398,6 +416,16 @@ def struct(out_path):
                     st, row, e = attempt(lambda: list(t[r]))
                     if st != "ok" or not views_equal(row, exp_rows[r]):
                         F.add("row_view", case, type(e).__name__ if st != "ok" else row, exp_rows[r], how="t[i]")
+                    st, row, e = attempt(lambda: list(t[r - nrows]))
+                    if st != "ok" or not views_equal(row, exp_rows[r]):
+                        F.add("row_view", case, type(e).__name__ if st != "ok" else row, exp_rows[r], how="t[i - n]")
+                # positions the columns do not have are not rows either: t[n], t[-n-1], t[n, 0] raise (IndexError), they do not wrap
+                for bad in (nrows, -nrows - 1, nrows + 3):
+                    for label, mk in (("t[%d]" % bad, lambda: list(t[bad])), ("t[%d, 0]" % bad, lambda: t[bad, 0]), ("t[%d, :]" % bad, lambda: list(t[bad, :]))):
+                        st, row, e = attempt(mk)
+                        ex += 1
+                        if st == "ok":
+                            F.add("row_view", case, {label: row}, "IndexError (the table has %d rows)" % nrows, how="out of range")
                 # >> appends columns and leaves existing ones untouched
                 newcol = [5] * nrows
                 for label, mk in (("t >> Vector", lambda: t >> Vector(list(newcol), name="z")),
@@ -430,6 +458,8 @@ def struct(out_path):
                             ex += 1
                             if not views_equal(dv, vec_view(donor)):
                                 F.add("operands_unchanged", case, {"donor after " + label: vec_view(donor)}, dv, how=label)
+                                if donor.name != dname:
+                                    F.add("names", case, {"the caller's vector is now named": donor.name}, dname, how=label)
                                 donor = Vector([5] * dl, name=dname)
                                 dv = vec_view(donor)
                             if st == "ok" and isinstance(r, Table) and any(col is donor for col in r.cols()):
